@@ -239,6 +239,7 @@ _SAFE_METHODS = {
     bytes: {'find', 'index', 'count', 'lower', 'upper', 'startswith', 'endswith', 'decode', 'isdigit', 'join', 'split', 'strip', 'hex', 'replace', 'rfind'},
     bytearray: {'find', 'index', 'count', 'extend', 'append', 'pop'},
     tuple: {'index', 'count'},
+    int: {'to_bytes', 'bit_length'},
     __import__('decimal').Decimal: {'quantize', 'normalize', 'to_integral_value', 'is_finite', 'as_tuple'},
     list: {'index', 'count', 'append', 'extend', 'pop', 'insert', 'remove', 'clear', 'sort', 'reverse', 'copy'},
     frozenset: {'union', 'intersection'},
